@@ -84,6 +84,50 @@ FromBytes(k0, k31, ok) ==
     /\ UNCHANGED <<Pk, Sig, issued>>
 
 ---------------------------------------------------------------------------
+\* Degenerate / edge triples (small-order and non-canonical points, boundary scalars).
+\* RFC 8032 5.1.7 decides a triple from: S in range (S < L), A and R decodable, and the group
+\* equation [S]B = R + [k]A, which a verifier may check with or without the cofactor 8.  The
+\* equation facts come from the harness (curve25519-dalek): eq1 (cofactorless), eq8 (cofactored;
+\* eq1 => eq8); the byte-level facts are decided here.  32-byte values are little-endian sequences.
+LBytes == <<237, 211, 245, 92, 26, 99, 18, 88, 214, 156, 247, 162, 222, 249, 222, 20,
+            0, 0, 0, 0, 0, 0, 0, 0, 0, 0, 0, 0, 0, 0, 0, 16>>          \* L = 2^252 + 27742...8493
+PBytes == [i \in 1..32 |-> IF i = 1 THEN 237 ELSE IF i = 32 THEN 127 ELSE 255]     \* p = 2^255 - 19
+LessLE(x, y) == \E i \in 1..32 : x[i] < y[i] /\ \A j \in (i + 1)..32 : x[j] = y[j]
+SInRange(s) == LessLE(s, LBytes)
+YCanonical(enc) == LessLE([enc EXCEPT ![32] = @ % 128], PBytes)        \* y < p (sign bit masked)
+
+\* Classes.  Fixed by the RFC: S >= L and undecodable points are invalid; with canonical encodings
+\* a triple is valid if the cofactorless equation holds (then both variants accept) and invalid if
+\* even the cofactored one fails.  Left open by the RFC: eq8 /\ ~eq1 (a small-order component makes
+\* the two permitted checks differ).  Non-canonical point encodings (y >= p, x = 0 with the sign bit)
+\* are invalid by the RFC's decoding rule but accepted by deployed verifiers including the
+\* reference, so they are not judged either: both open classes only have to be answered
+\* deterministically, and a difference from the reference is drift.
+EdgeFactsOK(f) == /\ f.eq1 => f.eq8
+                  /\ f.a_canon => (f.a_dec /\ YCanonical(f.a))
+                  /\ f.r_canon => (f.r_dec /\ YCanonical(f.r))
+EdgeClass(f) ==
+    IF ~SInRange(f.s) THEN "reject:S-out-of-range"
+    ELSE IF ~f.a_dec \/ ~f.r_dec THEN "reject:undecodable-point"
+    ELSE IF ~f.a_canon \/ ~f.r_canon THEN "either:non-canonical-encoding"
+    ELSE IF f.eq8 /\ ~f.eq1 THEN "either:cofactor"
+    ELSE IF f.eq1 THEN "accept:equation-holds"
+    ELSE "reject:equation-fails"
+EdgeAllowed(f) == LET c == EdgeClass(f) IN
+    IF c = "accept:equation-holds" THEN {TRUE}
+    ELSE IF c \in {"either:non-canonical-encoding", "either:cofactor"} THEN {TRUE, FALSE}
+    ELSE {FALSE}
+\* judgement of one logged edge_verify record (ok, ok2 = pallas-crypto asked twice; ref = reference)
+EdgeJudge(f) ==
+    [class |-> EdgeClass(f),
+     verdict |-> IF ~EdgeFactsOK(f) THEN "bad-facts"
+                 ELSE IF f.ok # f.ok2 THEN "nondeterministic"
+                 ELSE IF f.ok \in EdgeAllowed(f) THEN "ok"
+                 ELSE IF f.ok THEN "accepts-invalid" ELSE "rejects-valid",
+     drift |-> Cardinality(EdgeAllowed(f)) = 2 /\ f.ok # f.ref,
+     reference_deviates |-> f.ref \notin EdgeAllowed(f)]
+
+---------------------------------------------------------------------------
 \* laws of the scheme (checked by MCEd25519)
 SignedVerifies == \A key \in DOMAIN Pk : \A km \in DOMAIN Sig :
                      km[1] = key => <<Pk[key], km[2], Sig[km]>> \in issued
